@@ -10,6 +10,8 @@ for f in os.listdir(src):
     p = os.path.join(src, f)
     if os.path.isfile(p) and os.path.getsize(p) < 200_000:
         shutil.copy(p, os.path.join(dst, f))
+    elif os.path.isdir(p) and f not in ("target", ".git"):
+        shutil.copytree(p, os.path.join(dst, f), dirs_exist_ok=True)
 meta = {
     "property": pid,
     "breaks": extra["change"],
